@@ -56,7 +56,7 @@ SPECS = [
  ("src/transaction.rs", "let start_seq_num = core.seq_num();", 1, "a", '"txn.loaded", start_seq_num, 0'),
  ("src/transaction.rs", "let txn_guard = Some(core.active_txn_tracker.register(start_seq_num));", 1, "a", '"txn.registered", start_seq_num, 0'),
  # ---- memtable: one point per inserted entry
- ("src/memtable/mod.rs", "self.insert_into_memtable(&ikey, &val)?;", 1, "a", '"mem.insert", current_seq_num, batch.count() as u64'),
+ ("src/memtable/mod.rs", "self.insert_into_memtable(&ikey, &val, heights.get(i).copied())?;", 1, "a", '"mem.insert", current_seq_num, batch.count() as u64'),
  # ---- lsm.rs: LsmCommitEnv::apply, Core::close
  ("src/lsm.rs", 'log::debug!("apply: arena full, rotating memtable");', 1, "b", '"apply.arena_full", batch.starting_seq_num, 0'),
  ("src/lsm.rs", "self.core.rotate_memtable()?;", 1, "a", '"apply.rotated", batch.starting_seq_num, 0'),
